@@ -29,7 +29,7 @@ def sh(cmd, **kw):
     return subprocess.run(cmd, shell=True, capture_output=True, text=True, **kw)
 
 def setup(k):
-    S = f'/tmp/evalw{k}'
+    S = f'/tmp/{os.environ.get("EVAL_PREFIX", "evalw")}{k}'
     sh(f'rm -rf {S}/repo {S}/verif {S}/scratch; mkdir -p {S}')
     sh(f'rsync -a --exclude target --exclude .git /repo/ {S}/repo/')
     sh(f'cd {S}/repo && git init -q && git add -A >/dev/null 2>&1 && git -c user.email=x@x -c user.name=x commit -qm snap')
